@@ -6,7 +6,8 @@
 //         M  rtosc_print_message / rtosc_count_printed_arg_vals_of_msg / rtosc_scan_message
 //         T  <text-hex>: only count + scan of the given text (no printing); used for witnesses
 //         X  Libc stream: `X a32 <bits>` `X a64 <bits>` `X f32 <prec> <bits>` `X f64 <prec> <bits>`
-//            `X sf32 <text-hex>` `X sf64 <text-hex>` `X tm <secs>` (glibc formatting/scanning alone)
+//            `X sf32 <text-hex>` `X sf64 <text-hex>` `X tm <secs>` `X si <d|i|x> <width|-> <text-hex>`
+//            (glibc formatting/scanning alone)
 //   arg   i<dec> h<dec> c<dec> f<hex8> d<hex16> t<hex16> r<hex8> m<hex8>
 //         s:<hex|-> S:<hex|-> b:<hex|-> T F N I
 //         [<tydec>  ... ]      array header with element-type byte <tydec>, then the elements, then `]`
@@ -130,9 +131,20 @@ static std::string libc_step(const std::vector<std::string> &w) {
         bytes t; if (!unhex(w[2], t)) return "bad-op"; t.push_back(0); Exact mem(t);
         int rd = 0; std::ostringstream o;
         if (k == "sf32") { float f = 0; int n = sscanf(mem.c(), "%f%n", &f, &rd); uint32_t u; memcpy(&u, &f, 4);
-            snprintf(buf, sizeof buf, "%d %d %08x", n, rd, n == 1 ? u : 0u); }
+            if (n != 1) return "fail";
+            snprintf(buf, sizeof buf, "%d %08x", rd, u); }
         else { double d = 0; int n = sscanf(mem.c(), "%lf%n", &d, &rd); uint64_t u; memcpy(&u, &d, 8);
-            snprintf(buf, sizeof buf, "%d %d %016" PRIx64, n, rd, n == 1 ? u : (uint64_t)0); }
+            if (n != 1) return "fail";
+            snprintf(buf, sizeof buf, "%d %016" PRIx64, rd, u); }
+        return buf;
+    }
+    if (k == "si" && w.size() >= 5) {   // integer conversions: "%<w>ld" / "%<w>li" / "%<w>lx" then %n
+        bytes t; if (!unhex(w[4], t)) return "bad-op"; t.push_back(0); Exact mem(t);
+        std::string fmt = "%" + (w[3] == "-" ? std::string("") : w[3]) + "l" + w[2] + "%n";
+        long v = 0; int rd = 0;
+        int n = sscanf(mem.c(), fmt.c_str(), &v, &rd);
+        if (n != 1) return "fail";
+        snprintf(buf, sizeof buf, "%d %ld", rd, v);
         return buf;
     }
     if (k == "tm") { time_t t = (time_t)strtoull(w[2].c_str(), NULL, 10); struct tm *m = localtime(&t);
